@@ -10,8 +10,9 @@ import time
 from pv.core import Ob, DISCHARGED, REFUTED, UNDECIDED
 from spec import ebnf
 
-SYMS = ['NAME', 'NUMBER', "'x'", 'b', 'a']
-SYMS4 = ['NAME', "'x'", "'y'", 'b']
+# '"x"' is a second spelling of the terminal 'x': two arcs of one state may claim the same token under different labels
+SYMS = ['NAME', 'NUMBER', "'x'", '"x"', 'b', 'a']
+SYMS4 = ['NAME', "'x'", '"x"', "'y'", 'b']
 SYMS3 = ['NAME', "'x'", 'b']
 
 
@@ -64,7 +65,7 @@ def check_one(txt):
         return ('spec-error', txt, repr(e))
     if g.nullable():
         return ('skip', txt, 'nullable')
-    expect_reject = bool(g.first_conflicts()) or bool(g.left_recursive())
+    expect_reject = bool(g.first_conflicts()) or bool(g.left_recursive()) or bool(g.spelling_conflicts())
     try:
         pg = gen.generate_grammar(txt, token_namespace=PythonTokenTypes)
         raised = None
@@ -76,7 +77,7 @@ def check_one(txt):
         return ('fail', txt, 'generate_grammar raised %s: %s' % (type(e).__name__, e))
     if expect_reject and raised is None:
         return ('fail', txt, 'not LL(1) (conflicts %r, left recursion %r) but accepted silently'
-                % (g.first_conflicts()[:2], sorted(g.left_recursive())))
+                % ((g.first_conflicts() + g.spelling_conflicts())[:2], sorted(g.left_recursive())))
     if not expect_reject and raised is not None:
         return ('fail', txt, 'LL(1) grammar rejected: %s' % raised)
     if raised is not None:
